@@ -17,3 +17,10 @@ func TestSyn(t *testing.T) {
 	t.Log(S1(3, false)[3000].Text())
 	t.Log(len(S2()), S2()[24].Text())
 }
+
+func TestNewFams(t *testing.T) {
+	t.Log("S3", len(S3(3)), "S4", len(S4()), "L7", len(L7()))
+	t.Log(S3(3)[5].Text())
+	t.Log(S4()[0].Text())
+	t.Log(L7()[0].Text())
+}
